@@ -122,6 +122,21 @@ void run_case(vf::ctx_t& c)
         }
         entry = pool[static_cast<size_t>(rng.integer(0, static_cast<int64_t>(pool.size()) - 1))];
     }
+    // mode "gsample": only the four gradient-sampling solvers (a QP per iteration: expensive in the default mix, where
+    // they get ~1 % of the cases), on tiny problems with small budgets, always with fuzzed solver parameters
+    const bool gsample = c.args.mode == "gsample";
+    if (gsample && forced.empty())
+    {
+        std::vector<const solver_entry_t*> pool;
+        for (const auto& s : solvers)
+        {
+            if (s.id == "gs" || s.id == "ags" || s.id == "gs-lbfgs" || s.id == "ags-lbfgs")
+            {
+                pool.push_back(&s);
+            }
+        }
+        entry = pool[static_cast<size_t>(rng.integer(0, static_cast<int64_t>(pool.size()) - 1))];
+    }
     const auto& id     = entry->id;
     auto        solver = make_solver(id);
     if (!solver)
@@ -141,7 +156,7 @@ void run_case(vf::ctx_t& c)
         for (int attempt = 0; attempt < 50 && !function; ++attempt)
         {
             const auto& f = *registered[static_cast<size_t>(rng.integer(0, static_cast<int64_t>(registered.size()) - 1))];
-            if (f.size() <= (cheap ? 8 : entry->max_dims))
+            if (f.size() <= (gsample ? 4 : (cheap ? 8 : entry->max_dims)))
             {
                 function = f.clone();
                 fname    = f.name();
@@ -153,20 +168,20 @@ void run_case(vf::ctx_t& c)
         using K            = harness_function_t::kind;
         const auto kinds   = std::vector<K>{K::quadratic, K::logquadratic, K::maxaffine, K::l1, K::linf, K::l1quad, K::linfquad, K::walled, K::nanwalled};
         const auto k       = rng.pick(kinds);
-        const auto n       = static_cast<int>(rng.integer(1, cheap ? 8 : std::min(entry->max_dims, 16)));
+        const auto n       = static_cast<int>(rng.integer(1, gsample ? 4 : (cheap ? 8 : std::min(entry->max_dims, 16))));
         function           = std::make_unique<harness_function_t>(k, n, rng);
         fname              = std::string("harness:") + kind_name(k) + "[" + std::to_string(n) + "D]";
     }
     const auto n = function->size();
 
     // settings
-    const auto max_evals = rng.chance(0.1) ? 10 : rng.integer(10, cheap ? 700 : 5000);
+    const auto max_evals = rng.chance(0.1) ? 10 : rng.integer(10, gsample ? 300 : (cheap ? 700 : 5000));
     const auto epsilon   = rng.loguniform(1e-12, 1e-2);
     solver->parameter("solver::epsilon")   = epsilon;
     solver->parameter("solver::max_evals") = max_evals;
     std::string config;
     bool        lsearch_fuzzed = false;
-    if (rng.chance(0.6))
+    if (gsample || rng.chance(0.6))
     {
         config = fuzz_parameters(*solver, rng,
                                  [&](const string_t& name)
